@@ -1,5 +1,6 @@
 mod arena;
 mod enc_arm;
+mod counter;
 mod cycles;
 mod enc_x86;
 mod hist;
@@ -22,6 +23,7 @@ fn main() {
         "enc-arm" => enc_arm::run(&a, &mut out),
         "hist" => hist::run(&a, &mut out),
         "cycles" => cycles::run(&a, &mut out),
+        "counter" => counter::run(&a, &mut out),
         x => {
             eprintln!("unknown command {x}");
             std::process::exit(2);
